@@ -90,6 +90,9 @@ def family(tier: str, seed: int) -> List[str]:
         for i in INT_L1:
             for form in ("{} == y", "0 < {} <= 5", "x < {} or b"):
                 seen.append(form.format(i))
+    if tier == "quick":
+        # (sets built from a symbolic list are slow to explore: thorough tier only)
+        seen = [e for e in seen if "{*xs" not in e]
     depth2 = combine(seen, rnd, 24 if tier == "quick" else 500)
     out = seen + depth2
     # validity: must compile
